@@ -20,6 +20,7 @@
 /* real symbols */
 int __real_pthread_create(pthread_t *, const pthread_attr_t *, void *(*)(void *), void *);
 int __real_pthread_join(pthread_t, void **);
+int __real_pthread_once(pthread_once_t *, void (*)(void));
 int __real_pthread_detach(pthread_t);
 int __real_pthread_mutex_init(pthread_mutex_t *, const pthread_mutexattr_t *);
 int __real_pthread_mutex_destroy(pthread_mutex_t *);
@@ -657,6 +658,55 @@ int __wrap_pthread_cond_broadcast(pthread_cond_t *c) {
         return __real_pthread_cond_broadcast(c);
     }
     vs_yield(VOP_BROADCAST, NULL, vs_cond_of(c), 0);
+    return 0;
+}
+/* pthread_once: modelled with a (wrapped) mutex and condition variable per once-object, so that a thread that meets a
+ * once-function still running on another thread blocks in the controlled scheduler, not in the kernel. An object the
+ * real pthread_once already completed before the scheduler was active (glibc: value 2) stays completed. */
+#define VS_MAX_ONCE 32
+static struct vs_once {
+    pthread_once_t *addr;
+    int state; /* 0 not run, 1 running, 2 done */
+    pthread_mutex_t m;
+    pthread_cond_t c;
+} vs_O[VS_MAX_ONCE];
+static int vs_no;
+int __wrap_pthread_once(pthread_once_t *o, void (*fn)(void)) {
+    if (!vs_active()) {
+        return __real_pthread_once(o, fn);
+    }
+    if (*(volatile int *)o == 2) {
+        return 0;
+    }
+    struct vs_once *s = NULL;
+    for (int i = 0; i < vs_no; ++i) {
+        if (vs_O[i].addr == o) {
+            s = &vs_O[i];
+        }
+    }
+    if (!s) {
+        if (vs_no == VS_MAX_ONCE) {
+            vs_fatal_event("OnceTableFull");
+        }
+        s = &vs_O[vs_no++];
+        s->addr = o;
+        s->state = 0;
+        __wrap_pthread_mutex_init(&s->m, NULL);
+        __wrap_pthread_cond_init(&s->c, NULL);
+    }
+    __wrap_pthread_mutex_lock(&s->m);
+    while (s->state == 1) {
+        __wrap_pthread_cond_wait(&s->c, &s->m);
+    }
+    if (s->state == 0) {
+        s->state = 1;
+        __wrap_pthread_mutex_unlock(&s->m);
+        fn();
+        __wrap_pthread_mutex_lock(&s->m);
+        s->state = 2;
+        __wrap_pthread_cond_broadcast(&s->c);
+    }
+    __wrap_pthread_mutex_unlock(&s->m);
     return 0;
 }
 int __wrap_clock_gettime(clockid_t id, struct timespec *ts) {
